@@ -785,6 +785,461 @@ def resolve_op_class(path, fn, cname, explicit, star, op_mods, rpc_known):
     raise TranslateError(path, fn, 'vendor operation class %s is not an RPC subclass found through the imports of this module' % cname)
 
 
+import re as _re
+from vlib.build import FORBIDDEN as FORBIDDEN_WORDS
+def strip_coq_comments(text):
+    return _re.sub(r'\(\*.*?\*\)', lambda m: '\n' * m.group(0).count('\n'), text, flags=_re.S)
+
+# ----------------------------------------------------------------------------- Gen_Lits
+LITS_DOC = """(* Gen/Gen_Lits.v  GENERATED by tools/translate.py from the source tree under test; do not edit.
+   Regenerated on every ./check run; git-ignored.  Imports only NC.Model.Base.
+
+   The literal harvest: for every function of every file in LIT_FILES of tools/translate.py (all of
+   ncclient/**/*.py except _version.py) the constants that occur in it, in SOURCE ORDER (line, column):
+     key   "<path below ncclient/ without .py, / as .>.<function>"  or  "....<Class>.<method>"
+           module-level  NAME = lambda ...  counts as function NAME;
+           "....<Class>.__class__"  = the statements of a class body that are not methods or nested classes;
+           "<module>.__module__"    = the module-level statements that are not functions, classes or imports;
+           a second definition of the same name in the same scope (property setter) is keyed "<name>#2".
+     L_<id> : list bytes   the str / bytes constants (UTF-8 octets of a str): default values of the
+                           parameters first, then the body.  Docstrings and any other statement
+                           that consists of a bare string are NOT included, nor are the arguments of
+                           logger.<level>(...) / <x>.logger.<level>(...) calls (text of log records).
+                           Parts of f-strings are.  The keyword NAMES of calls to the element constructors
+                           (new_ele, new_ele_ns, new_ele_nsmap, sub_ele, sub_ele_ns, Element, SubElement), other
+                           than attrs / nsmap / ns / parser / attrib, are harvested as strings at the position of the
+                           keyword: they are the names of the XML attributes  (new_ele("filter", type=type)).
+     I_<id> : list N       the int constants (bool excluded; a negative number  -3  appears as 3),
+                           emitted only when there is at least one.
+     F_<id> : list bytes   the float constants as Python repr text, only when there is at least one.
+     D_<id> : list (bytes * bytes)   (parameter name, default) for the parameters of a def that have a default,
+                           in signature order; a constant default is written as Python's repr (True, None, 'xml',
+                           830), any other as its source text (PORT_NETCONF_DEFAULT, operations.RaiseMode.ALL);
+                           only when there is at least one.
+     R_<id> : list bytes   the references to named constants, as text and in source order: every maximal dotted
+                           name in load position whose last component is UPPER_CASE (e.g. "operations.RaiseMode.ALL",
+                           "MSG_DELIM", "PORT_NETCONF_DEFAULT"; parameter defaults included), only when there is one.
+     <id> = key with every character outside [A-Za-z0-9_] replaced by _  (the translator fails when two keys collide).
+   Tables:  fn_lits : list (bytes * list bytes),  fn_nums : list (bytes * list N),  fn_flts, fn_refs, fn_defaults  (key, value)
+   and  fn_lits_of key : option (list bytes),  fn_nums_of key : option (list N).
+   A theorem  L_<id> = [model constants ...]  in coq/GenProps ties the literals a hand-written model
+   copied to the ones the function has now; a function that disappeared makes L_<id> undefined. *)
+"""
+
+def lit_files(repo):
+    base = os.path.join(repo, 'ncclient')
+    fs = sorted(glob.glob(os.path.join(base, '**', '*.py'), recursive=True))
+    return [f for f in fs if os.path.basename(f) != '_version.py']
+
+def modkey(repo, path):
+    rel = os.path.relpath(path, os.path.join(repo, 'ncclient'))[:-3].replace(os.sep, '.')
+    return rel[:-len('.__init__')] + '.__init__' if rel.endswith('.__init__') else rel
+
+def is_bare_string(st):
+    return isinstance(st, ast.Expr) and isinstance(st.value, ast.Constant) and isinstance(st.value.value, (str, bytes))
+
+LOG_METHODS = ('debug', 'info', 'warning', 'warn', 'error', 'critical', 'exception', 'log')
+def is_log_call(n):
+    """logger.<level>(...) / self.logger.<level>(...) / <x>.logger.<level>(...): the text of log records is not harvested."""
+    if not (isinstance(n, ast.Call) and isinstance(n.func, ast.Attribute) and n.func.attr in LOG_METHODS):
+        return False
+    r = n.func.value
+    return (isinstance(r, ast.Name) and r.id == 'logger') or (isinstance(r, ast.Attribute) and r.attr == 'logger')
+
+ELEMENT_CTORS = ('new_ele', 'new_ele_ns', 'new_ele_nsmap', 'sub_ele', 'sub_ele_ns', 'Element', 'SubElement')
+ELEMENT_CTOR_OWN_KEYWORDS = ('attrs', 'nsmap', 'ns', 'parser', 'attrib')
+def callee_name(c):
+    return c.func.attr if isinstance(c.func, ast.Attribute) else c.func.id if isinstance(c.func, ast.Name) else None
+
+def harvest(path, nodes, skip=()):
+    """(strs, ints, floats) of the constants below the given ast nodes, in source order; bare string
+    statements (docstrings) and the sub-trees listed in `skip` are left out."""
+    skip = set(id(x) for x in skip)
+    found = []
+    def visit(n):
+        if id(n) in skip or is_bare_string(n) or is_log_call(n):
+            return
+        if isinstance(n, ast.Constant):
+            v = n.value
+            if isinstance(v, bool) or v is None or v is Ellipsis:
+                return
+            if isinstance(v, (str, bytes, int, float)):
+                found.append(((n.lineno, n.col_offset, len(found)), v))
+            else:
+                raise TranslateError(path, n, 'constant of type %s: not understood' % type(v).__name__)
+            return
+        if isinstance(n, ast.Call) and callee_name(n) in ELEMENT_CTORS:
+            # new_ele("filter", type=type): the keyword IS the XML attribute name
+            for kw in n.keywords:
+                if kw.arg is not None and kw.arg not in ELEMENT_CTOR_OWN_KEYWORDS:
+                    found.append(((kw.lineno, kw.col_offset, len(found)), kw.arg))
+        for c in ast.iter_child_nodes(n):
+            visit(c)
+    for n in nodes:
+        visit(n)
+    found.sort(key=lambda t: t[0])
+    strs = [v for _, v in found if isinstance(v, (str, bytes))]
+    ints = [v for _, v in found if isinstance(v, int)]
+    flts = [repr(v) for _, v in found if isinstance(v, float)]
+    return strs, ints, flts
+
+def dotted_name(n):
+    if isinstance(n, ast.Name): return n.id
+    if isinstance(n, ast.Attribute):
+        b = dotted_name(n.value)
+        return None if b is None else b + '.' + n.attr
+    return None
+
+def is_const_name(s):
+    return len(s) > 1 and s == s.upper() and s[0].isalpha() and s.replace('_', '').isalnum()
+
+def harvest_refs(nodes, skip=()):
+    """The references to named constants below the given nodes, in source order: every maximal dotted name
+    (a.b.C or C) in load position whose last component is written in UPPER_CASE (two characters or more), as text."""
+    skip = set(id(x) for x in skip)
+    found = []
+    def visit(n):
+        if id(n) in skip or is_bare_string(n) or is_log_call(n):
+            return
+        if isinstance(n, (ast.Name, ast.Attribute)) and isinstance(n.ctx, ast.Load):
+            d = dotted_name(n)
+            if d is not None:
+                if is_const_name(d.split('.')[-1]):
+                    found.append(((n.lineno, n.col_offset, len(found)), d))
+                return
+        for c in ast.iter_child_nodes(n):
+            visit(c)
+    for n in nodes:
+        visit(n)
+    found.sort(key=lambda t: t[0])
+    return [d for _, d in found]
+
+def fn_parts(fn):
+    """The ast nodes of a def / lambda whose constants are harvested: parameter defaults, then body."""
+    a = fn.args
+    parts = list(a.defaults) + [d for d in a.kw_defaults if d is not None]
+    if isinstance(fn, ast.Lambda):
+        return parts + [fn.body]
+    return parts + list(fn.body)
+
+def defs_below(st):
+    """def statements nested in a compound module-level statement (if / try), not looking inside defs or classes."""
+    out = []
+    def walk(n):
+        for c in ast.iter_child_nodes(n):
+            if isinstance(c, (ast.FunctionDef, ast.AsyncFunctionDef)):
+                out.append(c)
+            elif not isinstance(c, ast.ClassDef):
+                walk(c)
+    walk(st)
+    return out
+
+def scopes_of(path, tree, mk):
+    """[(key, nodes, skip, line)] for one module, source order of the definitions."""
+    out = []
+    def add_scope(prefix, body, rest_name, line0):
+        seen = {}
+        def fresh(name):
+            seen[name] = seen.get(name, 0) + 1
+            return name if seen[name] == 1 else '%s#%d' % (name, seen[name])
+        rest, skip = [], []
+        for st in body:
+            if isinstance(st, (ast.FunctionDef, ast.AsyncFunctionDef)):
+                out.append(('%s.%s' % (prefix, fresh(st.name)), fn_parts(st), (), st.lineno))
+            elif (isinstance(st, ast.Assign) and len(st.targets) == 1 and isinstance(st.targets[0], ast.Name)
+                  and isinstance(st.value, ast.Lambda)):
+                out.append(('%s.%s' % (prefix, fresh(st.targets[0].id)), fn_parts(st.value), (), st.lineno))
+            elif isinstance(st, ast.ClassDef):
+                add_scope('%s.%s' % (prefix, fresh(st.name)), st.body, '__class__', st.lineno)
+            elif isinstance(st, (ast.Import, ast.ImportFrom)):
+                pass
+            else:
+                # e.g.  try: import x / except ImportError: def f(...)  — such defs get their own key
+                for sub in defs_below(st):
+                    out.append(('%s.%s' % (prefix, fresh(sub.name)), fn_parts(sub), (), sub.lineno))
+                    skip.append(sub)
+                rest.append(st)
+        out.append(('%s.%s' % (prefix, rest_name), rest, skip, line0))
+    add_scope(mk, tree.body, '__module__', 1)
+    return out
+
+def signature_defaults(path, tree, mk):
+    """key -> [(parameter name, text of its default)] for the def statements scopes_of gives a key (not lambdas):
+    a constant is written as Python's repr (True, None, 'xml', 830), anything else as ast.unparse gives it
+    (PORT_NETCONF_DEFAULT, operations.RaiseMode.ALL)."""
+    out = {}
+    def text(d):
+        return repr(d.value) if isinstance(d, ast.Constant) else ast.unparse(d)
+    def add_scope(prefix, body):
+        seen = {}
+        def fresh(name):
+            seen[name] = seen.get(name, 0) + 1
+            return name if seen[name] == 1 else '%s#%d' % (name, seen[name])
+        def one(st):
+            a = st.args
+            pos = a.posonlyargs + a.args
+            rows = [(p.arg, text(d)) for p, d in zip(pos[len(pos) - len(a.defaults):], a.defaults)]
+            rows += [(p.arg, text(d)) for p, d in zip(a.kwonlyargs, a.kw_defaults) if d is not None]
+            out['%s.%s' % (prefix, fresh(st.name))] = rows
+        for st in body:
+            if isinstance(st, (ast.FunctionDef, ast.AsyncFunctionDef)):
+                one(st)
+            elif (isinstance(st, ast.Assign) and len(st.targets) == 1 and isinstance(st.targets[0], ast.Name)
+                  and isinstance(st.value, ast.Lambda)):
+                fresh(st.targets[0].id)
+            elif isinstance(st, ast.ClassDef):
+                add_scope('%s.%s' % (prefix, fresh(st.name)), st.body)
+            elif not isinstance(st, (ast.Import, ast.ImportFrom)):
+                for sub in defs_below(st):
+                    one(sub)
+    add_scope(mk, tree.body)
+    return out
+
+def ident_of(key):
+    return ''.join(c if (c.isalnum() and c.isascii()) or c == '_' else '_' for c in key)
+
+def cq_nlist(ns):
+    return '[' + ';'.join(str(x) for x in ns) + ']%N' if ns else '([] : list N)'
+
+def gen_lits(repo):
+    out = [LITS_DOC, 'From NC Require Import Model.Base.\n']
+    idents = {}
+    lits_tab, nums_tab, flts_tab, refs_tab, dfl_tab = [], [], [], [], []
+    for f in lit_files(repo):
+        tree = parse(f)
+        mk = modkey(repo, f)
+        out.append('(* ---- %s *)' % os.path.relpath(f, repo))
+        defaults_of = signature_defaults(f, tree, mk)
+        for key, nodes, skip, line in scopes_of(f, tree, mk):
+            strs, ints, flts = harvest(f, nodes, skip)
+            if key.endswith(('.__module__', '.__class__')) and not (strs or ints or flts or harvest_refs(nodes, skip)):
+                continue
+            idn = ident_of(key)
+            if idn in idents:
+                raise TranslateError(f, line, 'the identifier of %s collides with the one of %s' % (key, idents[idn]))
+            idents[idn] = key
+            if any(i < 0 for i in ints):
+                raise TranslateError(f, line, 'negative int constant in %s' % key)
+            out.append('Definition L_%s : list bytes :=  (* %s, line %d *)\n  %s.' % (idn, comment_text(key), line, cq_bytes_list(strs)))
+            lits_tab.append('(%s, L_%s)' % (cq_bytes(key), idn))
+            if ints:
+                out.append('Definition I_%s : list N := %s.' % (idn, cq_nlist(ints)))
+                nums_tab.append('(%s, I_%s)' % (cq_bytes(key), idn))
+            if flts:
+                out.append('Definition F_%s : list bytes := %s.' % (idn, cq_bytes_list(flts)))
+                flts_tab.append('(%s, F_%s)' % (cq_bytes(key), idn))
+            dfl = defaults_of.get(key)
+            if dfl:
+                out.append('Definition D_%s : list (bytes * bytes) :=\n  %s.' % (idn, cq_pairs(dfl)))
+                dfl_tab.append('(%s, D_%s)' % (cq_bytes(key), idn))
+            refs = harvest_refs(nodes, skip)
+            if refs:
+                out.append('Definition R_%s : list bytes :=\n  %s.' % (idn, cq_bytes_list(refs)))
+                refs_tab.append('(%s, R_%s)' % (cq_bytes(key), idn))
+    out.append('\nDefinition fn_lits : list (bytes * list bytes) :=\n  %s.' % cq_list(lits_tab, '(bytes * list bytes)'))
+    out.append('Definition fn_nums : list (bytes * list N) :=\n  %s.' % cq_list(nums_tab, '(bytes * list N)'))
+    out.append('Definition fn_flts : list (bytes * list bytes) :=\n  %s.' % cq_list(flts_tab, '(bytes * list bytes)'))
+    out.append('Definition fn_defaults : list (bytes * list (bytes * bytes)) :=\n  %s.' % cq_list(dfl_tab, '(bytes * list (bytes * bytes))'))
+    out.append('Definition fn_refs : list (bytes * list bytes) :=\n  %s.' % cq_list(refs_tab, '(bytes * list bytes)'))
+    out.append('Definition fn_lits_of (k : bytes) : option (list bytes) := dict_get k fn_lits.')
+    out.append('Definition fn_nums_of (k : bytes) : option (list N) := dict_get k fn_nums.')
+    return '\n'.join(out) + '\n'
+
+
+# ----------------------------------------------------------------------------- Gen_Tables
+TABLES_DOC = """(* Gen/Gen_Tables.v  GENERATED by tools/translate.py from the source tree under test; do not edit.
+   Regenerated on every ./check run; git-ignored.  Imports only NC.Model.Base.
+
+   1. The exception hierarchy, from the  class X(Y, ...)  statements of every file of ncclient (not _version.py).
+      A class is an exception class when one of its bases is (by its last dotted component) a Python
+      built-in exception or another exception class of ncclient; two exception classes with the same
+      name in different modules are an error of the translator.
+        exc_classes : list (bytes * (bytes * list bytes))   (class name, (dotted module, base names as written,
+                       last dotted component)), by module and source order
+        exc_bases name : list bytes
+        exc_derives a b : bool      a is b, or a base of a derives from b  (= issubclass(a, b); names that are
+                       not ncclient classes, e.g. "Exception", have no bases)
+        exc_subclasses b : list bytes   the names of exc_classes that derive from b, in table order
+   2. RPCError.tag_to_attr of operations/rpc.py (a class-level dict  qualify("<tag>"): "<attr>"):
+        rpcerror_tag_to_attr_local : list (bytes * bytes)   (tag, attribute), source order
+        rpcerror_tag_to_attr       : list (bytes * bytes)   ("{<ns>}<tag>", attribute) where <ns> is the default
+                       namespace of xml_.qualify, which must be  lambda tag, ns=<CONST>: tag if ns is None else "{%s}%s" % (ns, tag)
+        xml_qualify_default_ns : bytes     the value of that constant of xml_.py
+   3. validate_args_calls : list (bytes * (bytes * list bytes))
+        every call  util.validate_args('<arg name>', <expr>, [<str literals>])  /  validate_args(...)  in
+        ncclient/operations/**: (key of the enclosing function as in Gen_Lits, (arg name, allowed values)), source order.
+        A call whose first argument is not a string literal or whose third is not a list of string literals is an error.
+   4. Class-level constants  NAME = <int | str literal>  (upper-case NAME) of every class of ncclient:
+        K_<id> : N  or  bytes,   class_int_consts : list (bytes * N),  class_str_consts : list (bytes * bytes)
+        keyed "<module>.<Class>.<NAME>" (module path below ncclient/), e.g. operations.rpc.RaiseMode.ALL.
+   5. assert_calls : list (bytes * list bytes)
+        for every function of ncclient/operations/** that calls  self._assert(<str literal>) : the literals, source order
+        (a call with another kind of argument is listed in assert_calls_dynamic : list bytes, the function keys). *)
+"""
+
+import builtins as _bi
+BUILTIN_EXC = sorted(n for n in dir(_bi) if isinstance(getattr(_bi, n), type) and issubclass(getattr(_bi, n), BaseException))
+
+def last_component(path, node, cls):
+    if isinstance(node, ast.Name): return node.id
+    if isinstance(node, ast.Attribute): return node.attr
+    raise TranslateError(path, node, 'base class expression of %s is neither a name nor a dotted name' % cls)
+
+def gen_tables(repo, xml_consts):
+    out = [TABLES_DOC, 'From NC Require Import Model.Base.\n']
+    trees = [(f, modkey(repo, f), parse(f)) for f in lit_files(repo)]
+    # ---- 1. exception hierarchy
+    classes = []     # (path, mod, ClassDef, [base last components])
+    for f, mk, t in trees:
+        for n in ast.walk(t):
+            if isinstance(n, ast.ClassDef):
+                if n.keywords:
+                    raise TranslateError(f, n, 'class %s has keyword arguments in its bases (metaclass?): not understood' % n.name)
+                classes.append((f, mk, n, [last_component(f, b, n.name) for b in n.bases]))
+    exc = {}
+    changed = True
+    while changed:
+        changed = False
+        for f, mk, n, bases in classes:
+            if (mk, n.name) in exc: continue
+            if any(b in BUILTIN_EXC or any(k[1] == b for k in exc) for b in bases):
+                exc[(mk, n.name)] = (f, n, bases); changed = True
+    byname = {}
+    for (mk, name), (f, n, bases) in exc.items():
+        if name in byname:
+            raise TranslateError(f, n, 'exception class %s is defined in two modules (%s and %s): the hierarchy by name would be ambiguous' % (name, byname[name], mk))
+        byname[name] = mk
+    rows = []
+    for f, mk, n, bases in classes:
+        if (mk, n.name) in exc:
+            rows.append('(%s, (%s, %s))  (* %s.%s : %s *)' % (cq_bytes(n.name), cq_bytes('ncclient.' + mk), '[' + '; '.join(cq_bytes(b) for b in bases) + ']',
+                                                          comment_text(mk), comment_text(n.name), comment_text(', '.join(bases))))
+    if not rows:
+        raise TranslateError(os.path.join(repo, 'ncclient'), 0, 'no exception class found')
+    out.append('Definition exc_classes : list (bytes * (bytes * list bytes)) :=\n  %s.' % cq_list(rows))
+    out.append("""Definition exc_bases (a : bytes) : list bytes := match dict_get a exc_classes with Some (_, l) => l | None => [] end.
+Fixpoint exc_derives_fuel (n : nat) (a b : bytes) : bool :=
+  match n with
+  | O => false
+  | S n' => beq a b || existsb (fun p => exc_derives_fuel n' p b) (exc_bases a)
+  end.
+Definition exc_derives (a b : bytes) : bool := exc_derives_fuel (S (length exc_classes)) a b.
+Definition exc_subclasses (b : bytes) : list bytes := filter (fun a => exc_derives a b) (map fst exc_classes).
+""")
+    # ---- 2. RPCError.tag_to_attr and xml_.qualify
+    xpath = os.path.join(repo, 'ncclient', 'xml_.py')
+    q = None
+    for st in parse(xpath).body:
+        if isinstance(st, ast.Assign) and len(st.targets) == 1 and isinstance(st.targets[0], ast.Name) and st.targets[0].id == 'qualify':
+            q = st
+        if isinstance(st, ast.FunctionDef) and st.name == 'qualify':
+            raise TranslateError(xpath, st, 'qualify is a def, expected the lambda  tag, ns=<CONST>: tag if ns is None else "{%s}%s" % (ns, tag)')
+    if q is None:
+        raise TranslateError(xpath, 0, 'qualify not found')
+    lam = q.value
+    want = 'IfExp(Compare(Name(\'ns\', Load()), [Is()], [Constant(None)]), Name(\'tag\', Load()), BinOp(Constant(\'{%s}%s\'), Mod(), Tuple([Name(\'ns\', Load()), Name(\'tag\', Load())], Load())))'
+    if not (isinstance(lam, ast.Lambda) and [a.arg for a in lam.args.args] == ['tag', 'ns'] and len(lam.args.defaults) == 1
+            and isinstance(lam.args.defaults[0], ast.Name) and not lam.args.vararg and not lam.args.kwarg and not lam.args.kwonlyargs
+            and ast.dump(lam.body, annotate_fields=False) == want):
+        raise TranslateError(xpath, q, 'qualify is not  lambda tag, ns=<CONST>: tag if ns is None else "{%s}%s" % (ns, tag)')
+    qns_name = lam.args.defaults[0].id
+    if qns_name not in xml_consts:
+        raise TranslateError(xpath, q, 'default namespace %s of qualify is not a string constant of xml_.py' % qns_name)
+    qns = xml_consts[qns_name]
+    out.append('Definition xml_qualify_default_ns : bytes := %s.  (* %s = %s *)' % (cq_bytes(qns), qns_name, comment_text(qns)))
+    rpath = os.path.join(repo, 'ncclient', 'operations', 'rpc.py')
+    rtree = parse(rpath)
+    t2a = None
+    for st in rtree.body:
+        if isinstance(st, ast.ClassDef) and st.name == 'RPCError':
+            for c in st.body:
+                if isinstance(c, ast.Assign) and len(c.targets) == 1 and isinstance(c.targets[0], ast.Name) and c.targets[0].id == 'tag_to_attr':
+                    t2a = c
+    if t2a is None:
+        raise TranslateError(rpath, 0, 'RPCError.tag_to_attr not found as a class-level assignment')
+    if not isinstance(t2a.value, ast.Dict):
+        raise TranslateError(rpath, t2a, 'RPCError.tag_to_attr is not a dict literal')
+    ex, star = imports_of(rtree)
+    if not ('qualify' in ex and ex['qualify'][0].endswith('xml_')) and not any(m.endswith('xml_') for m in star):
+        raise TranslateError(rpath, t2a, 'qualify in operations/rpc.py does not come from ncclient.xml_')
+    pairs = []
+    for k, v in zip(t2a.value.keys, t2a.value.values):
+        if not (isinstance(k, ast.Call) and isinstance(k.func, ast.Name) and k.func.id == 'qualify' and len(k.args) == 1 and not k.keywords
+                and isinstance(k.args[0], ast.Constant) and isinstance(k.args[0].value, str)):
+            raise TranslateError(rpath, k or t2a, 'a key of RPCError.tag_to_attr is not qualify("<literal>")')
+        if not (isinstance(v, ast.Constant) and isinstance(v.value, str)):
+            raise TranslateError(rpath, v, 'a value of RPCError.tag_to_attr is not a string literal')
+        pairs.append((k.args[0].value, v.value))
+    if len({k for k, _ in pairs}) != len(pairs):
+        raise TranslateError(rpath, t2a, 'RPCError.tag_to_attr has a repeated key')
+    out.append('Definition rpcerror_tag_to_attr_local : list (bytes * bytes) :=\n  %s.' % cq_pairs(pairs))
+    out.append('Definition rpcerror_tag_to_attr : list (bytes * bytes) :=\n  %s.\n' % cq_pairs([('{%s}%s' % (qns, k), v) for k, v in pairs]))
+    # ---- 3. validate_args calls, 5. _assert calls  (ncclient/operations/**)
+    va, asserts, dyn = [], [], []
+    for f, mk, t in trees:
+        if not mk.startswith('operations.'): continue
+        for key, nodes, skip, line in scopes_of(f, t, mk):
+            skipids = set(id(x) for x in skip)
+            mine = []
+            def walk(n):
+                if id(n) in skipids: return
+                if isinstance(n, ast.Call): mine.append(n)
+                for c in ast.iter_child_nodes(n): walk(c)
+            for n in nodes: walk(n)
+            mine.sort(key=lambda c: (c.lineno, c.col_offset))
+            lits = []
+            for c in mine:
+                fname = c.func.attr if isinstance(c.func, ast.Attribute) else c.func.id if isinstance(c.func, ast.Name) else None
+                if fname == 'validate_args':
+                    if not (len(c.args) == 3 and not c.keywords and isinstance(c.args[0], ast.Constant) and isinstance(c.args[0].value, str)
+                            and isinstance(c.args[2], (ast.List, ast.Tuple))
+                            and all(isinstance(e, ast.Constant) and isinstance(e.value, str) for e in c.args[2].elts)):
+                        raise TranslateError(f, c, "validate_args call is not of the form validate_args('<name>', <value>, [<string literals>])")
+                    va.append((key, c.args[0].value, [e.value for e in c.args[2].elts]))
+                if fname == '_assert' and isinstance(c.func, ast.Attribute):
+                    if len(c.args) == 1 and not c.keywords and isinstance(c.args[0], ast.Constant) and isinstance(c.args[0].value, str):
+                        lits.append(c.args[0].value)
+                    elif key not in dyn:
+                        dyn.append(key)
+            if lits:
+                asserts.append((key, lits))
+    out.append('Definition validate_args_calls : list (bytes * (bytes * list bytes)) :=\n  %s.' % cq_list(
+        ['(%s, (%s, %s))  (* %s %s *)' % (cq_bytes(k), cq_bytes(a), '[' + '; '.join(cq_bytes(x) for x in l) + ']', comment_text(k), comment_text(a + ': ' + ', '.join(l)))
+         for k, a, l in va], '(bytes * (bytes * list bytes))'))
+    out.append('Definition assert_calls : list (bytes * list bytes) :=\n  %s.' % cq_list(
+        ['(%s, %s)  (* %s: %s *)' % (cq_bytes(k), '[' + '; '.join(cq_bytes(x) for x in l) + ']', comment_text(k), comment_text(' '.join(l))) for k, l in asserts],
+        '(bytes * list bytes)'))
+    out.append('Definition assert_calls_dynamic : list bytes :=\n  %s.\n' % cq_bytes_list(dyn))
+    # ---- 4. class-level constants
+    ints, strs, seen = [], [], {}
+    for f, mk, t in trees:
+        def classes_in(body, prefix):
+            for st in body:
+                if isinstance(st, ast.ClassDef):
+                    yield prefix + st.name, st
+                    for x in classes_in(st.body, prefix + st.name + '.'): yield x
+        for cname, cd in classes_in(t.body, ''):
+            for st in cd.body:
+                if (isinstance(st, ast.Assign) and len(st.targets) == 1 and isinstance(st.targets[0], ast.Name)
+                        and st.targets[0].id == st.targets[0].id.upper() and st.targets[0].id[0].isalpha()
+                        and isinstance(st.value, ast.Constant) and not isinstance(st.value.value, bool)
+                        and isinstance(st.value.value, (int, str))):
+                    key = '%s.%s.%s' % (mk, cname, st.targets[0].id)
+                    idn = ident_of(key)
+                    if idn in seen:
+                        raise TranslateError(f, st, 'the identifier of %s collides with the one of %s' % (key, seen[idn]))
+                    seen[idn] = key
+                    v = st.value.value
+                    if isinstance(v, int):
+                        if v < 0: continue
+                        out.append('Definition K_%s : N := %d%%N.' % (idn, v)); ints.append((key, idn))
+                    else:
+                        out.append('Definition K_%s : bytes := %s.' % (idn, cq_bytes_c(v))); strs.append((key, idn))
+    out.append('Definition class_int_consts : list (bytes * N) :=\n  %s.' % cq_list(['(%s, K_%s)' % (cq_bytes(k), i) for k, i in ints], '(bytes * N)'))
+    out.append('Definition class_str_consts : list (bytes * bytes) :=\n  %s.' % cq_list(['(%s, K_%s)' % (cq_bytes(k), i) for k, i in strs], '(bytes * bytes)'))
+    return '\n'.join(out) + '\n'
+
+
 # ----------------------------------------------------------------------------- main
 def main():
     ap = argparse.ArgumentParser()
@@ -797,11 +1252,17 @@ def main():
         const_v, xml_consts = gen_const(repo)
         ops_v, rpc_known, op_mods = gen_ops(repo)
         dev_v = gen_devices(repo, xml_consts, rpc_known, op_mods)
+        lits_v = gen_lits(repo)
+        tables_v = gen_tables(repo, xml_consts)
+        for name, text in (('Gen_Lits.v', lits_v), ('Gen_Tables.v', tables_v)):
+            for i, line in enumerate(strip_coq_comments(text).split('\n'), 1):
+                if FORBIDDEN_WORDS.search(line):
+                    raise TranslateError(name, i, 'generated text contains a word the vernacular guard forbids: %s' % line.strip()[:80])
     except TranslateError as e:
         print('translate: %s' % e)
         sys.exit(2)
     changed = []
-    for name, text in (('Gen_Const.v', const_v), ('Gen_Ops.v', ops_v), ('Gen_Devices.v', dev_v)):
+    for name, text in (('Gen_Const.v', const_v), ('Gen_Ops.v', ops_v), ('Gen_Devices.v', dev_v), ('Gen_Lits.v', lits_v), ('Gen_Tables.v', tables_v)):
         p = os.path.join(a.out, name)
         if a.check:
             try: same = open(p).read() == text
